@@ -49,6 +49,9 @@ type Opts struct {
 	// member reads as "no value"). Outside C14's stated domain; used by C05, which only asks
 	// where the member ends up. Off: such a path is out of the comparing domain.
 	NullMemberIsMissing bool
+	// EmptyTokens: an empty reference token ("/a/", "/") is an ordinary token naming the member
+	// called "" (RFC 6901). C01 puts such pointers outside its stated domain; C13 does not.
+	EmptyTokens bool
 }
 
 type Result struct {
@@ -110,7 +113,7 @@ func (e *Evaluator) split(p string) ([]string, bool) {
 	}
 	toks := strings.Split(p[1:], "/")
 	for i, t := range toks {
-		if t == "" {
+		if t == "" && !e.O.EmptyTokens {
 			e.setOOD("empty reference token")
 		}
 		toks[i] = e.decodeTok(t)
